@@ -95,7 +95,7 @@ for k, sh in enumerate(all_shapes(3)):
     send_t.append([3, sh, masks_of([(2, 2, 1), (4, 1, 2)][(k + 1) % 2]), 0, -1])
 # 3 flavors: single-daemon assignments, every order
 for sh in conn3:
-    for ms in rnd.sample(list(itertools.product((1, 2, 4, 8), repeat=3)), 24):
+    for ms in rnd.sample(list(itertools.product((1, 2, 4, 8), repeat=3)), 16):
         c = [3, sh, masks_of(ms), 0, -1]
         if c not in send_t:
             send_t.append(c)
@@ -131,7 +131,7 @@ for sh in all_shapes(2):
         bound_q.append([2, sh, masks_of(ms), -1])
 bound_t += bound_q
 for sh in all_shapes(3):
-    for ms in rnd.sample(list(itertools.product((1, 2, 4, 8), repeat=3)), 16):
+    for ms in rnd.sample(list(itertools.product((1, 2, 4, 8), repeat=3)), 10):
         bound_t.append([3, sh, masks_of(ms), 0])
 for sh in all_shapes(4):
     if sh % 2 == 1:
@@ -160,7 +160,7 @@ for sh in all_shapes(3):
     vars_q.append([3, sh, d, o, -1])
 vars_t += vars_q
 for sh in all_shapes(3):
-    for _ in range(30):
+    for _ in range(20):
         d, o = rand_decl_opts(3)
         vars_t.append([3, sh, d, o, -1])
 for sh in all_shapes(4):
@@ -195,7 +195,7 @@ specs = [
               "of n flavors. Quick: the 10 shapes of 3 flavors x (one 3-method assignment x EVERY order + 3 assignments of <= 4 "
               "methods x 4 sampled orders), the 7 connected 3-flavor shapes x 2 assignments on :init x every order, both 2-flavor "
               "shapes x 2 assignments x 2 messages x every order, 3 shapes of 4 flavors (wide, chain, diamond) x 2 assignments x 4 "
-              "sampled orders. Thorough adds: 7 connected 3-flavor shapes x (24 single-daemon assignments + 2 four-method "
+              "sampled orders. Thorough adds: 7 connected 3-flavor shapes x (16 single-daemon assignments + 2 four-method "
               "assignments + 3 :init assignments) x every order, all 160 shapes of 4 flavors (<= 3 components each) x 2 "
               "assignments x 4 sampled orders (+ :init for half of them), three 4-flavor shapes x every order, 200 sampled "
               "5-flavor shapes x 4 sampled orders. Asserted for an instance of EVERY flavor: "
